@@ -22,13 +22,23 @@ Proof. intros A r; unfold close_paren; repeat bm; congruence. Qed.
 
 (** * No panic *)
 
+Lemma primary_no_panic :
+  forall pe, (forall ts, pe ts <> Panic) -> forall ts, primary pe ts <> Panic.
+Proof.
+  intros pe Hpe ts; unfold primary.
+  repeat bmh;
+    repeat (match goal with H : close_paren _ = Panic |- _ => apply close_paren_panic in H end);
+    try (exfalso; eapply Hpe; eassumption);
+    try (intro Hc; apply close_paren_panic in Hc; eapply Hpe; eassumption).
+Qed.
+
 Lemma parse_e_no_panic :
   forall f, (forall p ts, parse_e f p ts <> Panic) /\ (forall p l ts, loop_e f p l ts <> Panic).
 Proof.
   induction f as [|f [IHp IHl]]; split; intros; cbn [parse_e loop_e]; try congruence.
-  - repeat bmh; try apply IHl;
-      repeat (match goal with H : close_paren _ = Panic |- _ => apply close_paren_panic in H end);
-      try (exfalso; eapply IHp; eassumption).
+  - destruct (strip_minus ts) as [neg ts1].
+    destruct (primary (parse_e f 0) ts1) eqn:Hp; try congruence; try apply IHl.
+    exfalso; eapply primary_no_panic; [|exact Hp]. intros; apply IHp.
   - repeat bmh; try apply IHl; try (exfalso; eapply IHp; eassumption).
 Qed.
 
